@@ -424,7 +424,7 @@ def pack_literal(spec: ValueSpec) -> Expression:
                 )
                 with lines.indent(
                     f"if value.__class__ is {enum_type_name} "
-                    f"and value == {enum_type_name}.{literal_value.name}:"
+                    f"and value == {enum_type_name}[{literal_value.name!r}]:"
                 ):
                     lines.append(f"return {packer}")
             elif isinstance(
